@@ -1,4 +1,11 @@
 #!/bin/bash
 # Regenerate the translated parts of the model from /repo's current source.
+#   pre  (before the harness is built): source text -> Gen/CommonImpls.v, Gen/ModulesTable.v, harness/src/gen_modules.rs
+#   post (after): the built crate's GAMES static -> Gen/GamesTable.v
 set -e
-python3 /verif/tools/translate_common.py
+if [ "$1" = post ]; then
+  python3 /verif/tools/translate_games.py post
+else
+  python3 /verif/tools/translate_common.py
+  python3 /verif/tools/translate_games.py pre
+fi
